@@ -3,6 +3,7 @@ import ast
 import json
 import os
 import socket
+import threading
 import warnings
 
 import common
@@ -17,7 +18,7 @@ AUDIT_FILES = ["PyroModel/Server.lean", "PyroModel/ServerLoop.lean", "PyroModel/
 THEOREMS = ["Pyro.C05.C05_loop_survives", "Pyro.C05.C05_frame", "Pyro.C05.C05_witness_correct",
             "Pyro.C05.C05_no_stranded_worker", "Pyro.C05.C05_selector_exact", "Pyro.C05.C05_accounting_restored",
             "Pyro.C05.C05_accepts_after", "Pyro.C05.C05_objects_kept", "Pyro.C05.C05_refines_server",
-            "Pyro.C05.C05_gen_cfg_good", "Pyro.C05.C05_gen_subclass", "Pyro.C05.C05_gen_shape",
+            "Pyro.C05.C05_gen_cfg_good", "Pyro.C05.C05_gen_classes", "Pyro.C05.C05_gen_shape",
             "Pyro.C05.C05_current_source", "Pyro.C05.C05_unguarded_deny_stops"]
 SUITES = ["loop", "classify"]
 RULE = ("histories on the real thread-pool and multiplex servers, driven through their own loop() over in-memory sockets, pool "
@@ -44,281 +45,361 @@ ASSUMPTIONS = ["byte level (exact reads, header validation) is as proved for C17
 TRUSTED = ["harness/srvkit.py + harness/props/c05_rig.py (in-memory sockets / listener / selector; real Daemon, real loop(), real Pool)",
            "classification of mutated bytes into model items (c05_gen.classify: real decoder + real deserialiser, checked against drv_c06)"]
 
-HANDLERS = ["exception", "baseException", "connClosed", "pyroTimeout", "communication", "pyroError", "security", "osError",
-            "sockTimeout", "keyboardInterrupt"]
+
+# ---- extractor: the containment layers are MEASURED on the real code, not read off its source -----------------------------
+CLS = ["connClosed", "pyroTimeout", "protocol", "serialize", "security", "osError", "sockTimeout", "other", "keyboardInterrupt",
+       "baseOther"]
 
 
-# ---- extractor ------------------------------------------------------------------------------------------
+class _ProbeSock:
+    """stand-in socket for the probes: its auxiliary methods fail the way a reset socket's do"""
+    family = socket.AF_INET
+
+    def __init__(self, log):
+        self.log = log
+        self.timeout = None
+        self.closed = 0
+
+    def settimeout(self, t):
+        self.timeout = t
+
+    def gettimeout(self):
+        return self.timeout
+
+    def setblocking(self, b):
+        pass
+
+    def close(self):
+        self.closed += 1
+        self.log.append("close")
+
+    def fileno(self):
+        return 7
+
+    def _gone(self, *a, **k):
+        raise OSError(107, "Transport endpoint is not connected")
+    shutdown = getpeername = getsockname = recv = send = sendall = _gone
+
+
+class _ProbeDaemon:
+    def __init__(self, log, shake=True, request=None):
+        self.log, self.shake, self.request = log, shake, request
+
+    def _handshake(self, conn, denied_reason=None):
+        self.log.append(("handshake", conn.sock.gettimeout()))
+        if isinstance(self.shake, BaseException):
+            raise self.shake
+        return self.shake and not denied_reason
+
+    def handleRequest(self, conn):
+        self.log.append("handleRequest")
+        raise self.request
+
+    def _clientDisconnect(self, conn):
+        self.log.append("_clientDisconnect")
+
+    def _housekeeping(self):
+        pass
+
+
+class _ProbeSelector:
+    def __init__(self, log, ready=()):
+        self.log, self.ready = log, list(ready)
+
+    def register(self, *a, **k):
+        self.log.append("register")
+
+    def unregister(self, *a, **k):
+        self.log.append("unregister")
+
+    def select(self, timeout=None):
+        return self.ready
+
+    def get_map(self):
+        return {}
+
+    def close(self):
+        pass
+
+
+class _ProbeListener:
+    def __init__(self, log, exc=None):
+        self.log, self.exc = log, exc
+
+    def accept(self):
+        if self.exc is not None:
+            raise self.exc
+        return _ProbeSock(self.log), ("probe", 1)
+
+    def fileno(self):
+        return 6
+
+    def getsockname(self):
+        return ("probe", 0)
+
+    def close(self):
+        pass
+
+
+def _retire(srv):
+    """the stand-in servers were never init()ed: keep their __del__ quiet"""
+    srv.sock = None
+    srv.pool = None
+    srv.housekeeper = None
+
+
 def extract():
+    """Every fact is obtained by RUNNING the layer in question (the real ClientConnectionJob, Worker, transport servers, recv_stub,
+    Daemon._sendExceptionResponse) with stand-ins that raise a representative of each exception class / record what is called, so
+    that the facts do not depend on how the code is spelled, ordered or split over private helper methods."""
     common.repo_on_path()
-    from Pyro5 import svr_threads, svr_multiplex, errors, server
-    cls_name = {Exception: "exception", BaseException: "baseException", errors.ConnectionClosedError: "connClosed",
-                errors.TimeoutError: "pyroTimeout", errors.CommunicationError: "communication", errors.PyroError: "pyroError",
-                errors.SecurityError: "security", OSError: "osError", socket.timeout: "sockTimeout",
-                KeyboardInterrupt: "keyboardInterrupt"}
-    from Pyro5 import serializers
+    import selectors
+    from Pyro5 import svr_threads, svr_multiplex, errors, server, serializers, config, protocol, socketutil
     if serializers.MarshalSerializer.serializer_id != c05_gen.MARSHAL_ID:
         raise ValueError("marshal serializer id changed")
-    if socket.timeout is OSError:
-        raise ValueError("socket.timeout is OSError on this interpreter")
+    reps = {"connClosed": errors.ConnectionClosedError, "pyroTimeout": errors.TimeoutError, "protocol": errors.ProtocolError,
+            "serialize": errors.SerializeError, "security": errors.SecurityError, "osError": lambda m: OSError(5, m),
+            "sockTimeout": socket.timeout, "other": KeyError, "keyboardInterrupt": KeyboardInterrupt, "baseOther": SystemExit}
 
-    def names_of(mod, expr):
-        if expr is None:
-            return ["baseException"]
-        elts = expr.elts if isinstance(expr, ast.Tuple) else [expr]
+    def rep(name):
+        return reps[name]("probe " + name)
+    exception_classes = [n for n in CLS if isinstance(rep(n), Exception)]
+
+    def contained(run):
+        """classes whose representative, raised inside the layer, does not leave it; run(exc) executes the layer"""
         out = []
-        for e in elts:
-            obj = eval(compile(ast.Expression(e), "<except>", "eval"), vars(mod))
-            if obj not in cls_name:
-                raise ValueError("except clause names a class the model does not know: %s" % ast.unparse(e))
-            out.append(cls_name[obj])
+        for name in CLS:
+            e = rep(name)
+            try:
+                run(e)
+                out.append(name)
+            except BaseException as x:
+                if x is not e:
+                    # something else came out (e.g. the OSError of getpeername() inside an except handler): not contained
+                    if not isinstance(x, (Exception, KeyboardInterrupt, SystemExit)):
+                        raise
         return out
 
-    def find(tree, cname, fname):
-        c = [n for n in tree.body if isinstance(n, ast.ClassDef) and n.name == cname][0]
-        return [n for n in c.body if isinstance(n, ast.FunctionDef) and n.name == fname][0]
+    saved = (config.COMMTIMEOUT, config.POLLTIMEOUT)
+    config.COMMTIMEOUT = 1.5
+    try:
+        # ---- thread-pool server: the connection job --------------------------------------------------------------------
+        def job_with(daemon):
+            log = daemon.log
+            return svr_threads.ClientConnectionJob(_ProbeSock(log), ("probe", 1), daemon)
 
-    def calls(node, attr):
-        return [n for n in ast.walk(node) if isinstance(n, ast.Call) and isinstance(n.func, ast.Attribute) and n.func.attr == attr]
+        thr_job = contained(lambda e: job_with(_ProbeDaemon([], True, e))())
+        thr_shake = contained(lambda e: job_with(_ProbeDaemon([], e))())
+        thr_deny = contained(lambda e: job_with(_ProbeDaemon([], e)).denyConnection("no free workers"))
+        # what happens after the request loop is left, in order (hook, close), also when the exception is not contained
+        d = _ProbeDaemon([], True, rep("connClosed"))
+        job_with(d)()
+        thread_finally = [x for x in d.log[d.log.index("handleRequest") + 1:] if x in ("_clientDisconnect", "close")]
+        thread_finally = [x for i, x in enumerate(thread_finally) if x not in thread_finally[:i]]
+        d = _ProbeDaemon([], True, rep("baseOther"))
+        try:
+            job_with(d)()
+        except SystemExit:
+            pass
+        finally_always = [x for x in d.log[d.log.index("handleRequest") + 1:] if x in ("_clientDisconnect", "close")][:2] == thread_finally[:2]
+        if not finally_always:
+            thread_finally = ["(not on every exit) "] + thread_finally
+        # the refused connection is closed on every path
+        deny_closes = True
+        for name in ["none"] + exception_classes:
+            d = _ProbeDaemon([], False if name == "none" else rep(name))
+            j = job_with(d)
+            try:
+                j.denyConnection("no free workers")
+            except BaseException:
+                pass
+            deny_closes = deny_closes and j.csock.sock.closed > 0
 
-    def try_around(fn, attr):
-        """innermost Try whose *body* contains a call of .attr()"""
-        best = None
-        for t in ast.walk(fn):
-            if isinstance(t, ast.Try) and any(calls(st, attr) for st in t.body):
-                if best is None or any(t is x for x in ast.walk(best)):
-                    best = t
-        return best
+        # ---- Worker.run ------------------------------------------------------------------------------------------------
+        class Pool:
+            def __init__(self):
+                self.log = []
 
-    def ladder(mod, t, ends=None):
-        out = []
-        for h in t.handlers:
-            if ends is not None and not ends(h):
-                continue
-            out += names_of(mod, h.type)
-        return out
+            def notify_done(self, worker):
+                self.log.append("notify_done")
+                worker.job = None
+                worker.job_available.set()
 
-    def methods_of(tree, cname):
-        c = [n for n in tree.body if isinstance(n, ast.ClassDef) and n.name == cname][0]
-        return {n.name: n for n in c.body if isinstance(n, ast.FunctionDef)}
+        def run_worker(e, pool=None):
+            pool = pool or Pool()
+            w = svr_threads.Worker(pool)
 
-    def self_call(node):
-        """name M if node is the call self.M(...)"""
-        if isinstance(node, ast.Call) and isinstance(node.func, ast.Attribute) and isinstance(node.func.value, ast.Name) \
-                and node.func.value.id == "self":
-            return node.func.attr
-        return None
+            def job():
+                raise e
+            w.job = job
+            w.job_available.set()
+            w.run()
+            return pool
+        thr_worker = contained(run_worker)
+        notifies = all(run_worker(rep(n)).log == ["notify_done"] for n in thr_worker) and bool(thr_worker)
 
-    def attr_calls_in_order(stmts, wanted, meths=None, depth=0):
-        """attribute calls named in `wanted`, in source order; calls of the class's own helper methods are looked into"""
-        out = []
+        # ---- the accept loop -------------------------------------------------------------------------------------------
+        def acceptor(listener, pool):
+            srv = object.__new__(svr_threads.SocketServer_Threadpool)
+            srv.daemon = _ProbeDaemon(listener.log, False)
+            srv.sock = listener
+            srv.shutting_down = False
+            srv.pool = pool
+            srv._selector = _ProbeSelector(listener.log, [(None, selectors.EVENT_READ)])
+            srv.housekeeper = None
+            return srv
 
-        def visit(node):
-            if isinstance(node, ast.Call):
-                m = self_call(node)
-                if meths and m in meths and m not in wanted and depth < 3:
-                    out.extend(attr_calls_in_order(meths[m].body, wanted, meths, depth + 1))
-                elif isinstance(node.func, ast.Attribute) and node.func.attr in wanted:
-                    for ch in ast.iter_child_nodes(node):
-                        visit(ch)
-                    out.append(node.func.attr)
-                    return
-            for ch in ast.iter_child_nodes(node):
-                visit(ch)
-        for st in stmts:
-            visit(st)
-        return out
+        def events_with(e):
+            srv = acceptor(_ProbeListener([], e), None)
+            try:
+                srv.events([srv.sock])
+            finally:
+                _retire(srv)
+        thr_events = contained(events_with)
 
-    def contains(stmts, target, meths):
-        """target node lies in stmts, directly or inside a helper method of the class that stmts call"""
-        for st in stmts:
-            for n in ast.walk(st):
-                if n is target:
-                    return True
-                m = self_call(n)
-                if m in meths and any(x is target for x in ast.walk(meths[m])):
-                    return True
-        return False
+        def loop_with(srv_cls, e):
+            srv = object.__new__(srv_cls)
+            srv.sock = _ProbeListener([])
+            srv.shutting_down = False
+            srv.daemon = _ProbeDaemon([], False)
+            srv.pool = srv.housekeeper = None
+            left = [6]
+            calls_made = [0]
 
-    tt = ast.parse(open(svr_threads.__file__).read())
-    mt = ast.parse(open(svr_multiplex.__file__).read())
+            def cond():
+                left[0] -= 1
+                return left[0] > 0
 
-    # -- thread: ClientConnectionJob.__call__
-    call = find(tt, "ClientConnectionJob", "__call__")
-    jobm = methods_of(tt, "ClientConnectionJob")
-    t = None
-    for fn in [call] + [f for f in jobm.values() if f is not call]:      # the loop may live in a helper method of the job
-        t = try_around(fn, "handleRequest")
-        if t is not None:
-            break
-    if t is None or not all(isinstance(h.body[-1], (ast.Break, ast.Return)) for h in t.handlers):
-        raise ValueError("ClientConnectionJob: request loop shape not recognised")
-    thr_job = ladder(svr_threads, t)
-    outer = [x for x in ast.walk(call) if isinstance(x, ast.Try) and x.finalbody and contains(x.body, t, jobm)]
-    thread_finally = attr_calls_in_order(outer[0].finalbody, ("_clientDisconnect", "close"), jobm) if outer else []
-    # -- thread: handleConnection
-    hc = find(tt, "ClientConnectionJob", "handleConnection")
-    t = try_around(hc, "_handshake")
-    thr_shake = ladder(svr_threads, t) if t is not None else []
-    # -- thread: denyConnection
-    dc = find(tt, "ClientConnectionJob", "denyConnection")
-    t = try_around(dc, "_handshake")
-    thr_deny = ladder(svr_threads, t, lambda h: not any(isinstance(n, ast.Raise) for n in ast.walk(h))) if t is not None else []
-    silent = t is not None and bool(thr_deny) and not any(isinstance(n, ast.Raise) for h in t.handlers for n in ast.walk(h))
-    deny_closes = t is not None and (bool(calls(ast.Module(t.finalbody, []), "close")) or
-                                     (silent and any(calls(st, "close") for st in dc.body[dc.body.index(t) + 1:] if t in dc.body)))
-    # -- thread: Worker.run
-    run = find(tt, "Worker", "run")
-    t = try_around(run, "job")
-    thr_worker = ladder(svr_threads, t) if t is not None else []
-    loop_body = [n for n in ast.walk(run) if isinstance(n, ast.While)][0].body
-    idx_try = [i for i, st in enumerate(loop_body) if st is t]
-    notifies_after = bool(idx_try) and any(calls(st, "notify_done") for st in loop_body[idx_try[0] + 1:])
-    # -- thread: events (contextlib.suppress) and loop
-    ev = find(tt, "SocketServer_Threadpool", "events")
-    thr_events = []
-    for w in ast.walk(ev):
-        if isinstance(w, ast.With) and calls(w, "denyConnection"):
-            for item in w.items:
-                c = item.context_expr
-                if isinstance(c, ast.Call) and getattr(c.func, "attr", "") == "suppress":
-                    for a in c.args:
-                        thr_events += names_of(svr_threads, a)
-    lp = find(tt, "SocketServer_Threadpool", "loop")
-    t = try_around(lp, "events")
-    continues = lambda h: any(isinstance(n, ast.Continue) for n in ast.walk(h)) or all(isinstance(n, ast.Pass) for n in h.body)
-    thr_loop = ladder(svr_threads, t, continues) if t is not None else []
-    # -- multiplex
-    hr = find(mt, "SocketServer_Multiplex", "handleRequest")
-    t = try_around(hr, "handleRequest")
-    ret_false = lambda h: isinstance(h.body[-1], ast.Return) and isinstance(h.body[-1].value, ast.Constant) and h.body[-1].value.value is False
-    if t is None or not all(ret_false(h) for h in t.handlers):
-        raise ValueError("SocketServer_Multiplex.handleRequest: shape not recognised")
-    mux_req = ladder(svr_multiplex, t)
-    hcm = find(mt, "SocketServer_Multiplex", "_handleConnection")
-    t = try_around(hcm, "_handshake")
-    mux_shake = ladder(svr_multiplex, t) if t is not None else []
-    lpm = find(mt, "SocketServer_Multiplex", "loop")
-    t = try_around(lpm, "events")
-    mux_loop = ladder(svr_multiplex, t, continues) if t is not None else []
-    evm = find(mt, "SocketServer_Multiplex", "events")
-    inactive = []
-    muxm = methods_of(mt, "SocketServer_Multiplex")
-    for node in ast.walk(evm):
-        # `if not active:` after `active = self.handleRequest(s)`, or directly `if / elif not self.handleRequest(s):`
-        if isinstance(node, ast.If) and isinstance(node.test, ast.UnaryOp) and isinstance(node.test.op, ast.Not) \
-                and (getattr(node.test.operand, "id", "") == "active" or self_call(node.test.operand) == "handleRequest"):
-            inactive = attr_calls_in_order(node.body, ("_clientDisconnect", "unregister", "close"), muxm)
-    # -- socket calls inside except / finally bodies of the transports must themselves be contained: after a reset
-    #    getpeername() & co. raise OSError, and an exception raised inside a handler is caught by no sibling clause
-    RISKY = {"getpeername", "getsockname", "getpeercert", "shutdown", "fileno", "settimeout", "gettimeout", "send", "recv",
-             "register", "unregister"}
-    COVER = {"osError", "exception", "baseException"}
+            def events(socks):
+                calls_made[0] += 1
+                raise e
+            srv.events = events
+            if srv_cls is svr_multiplex.SocketServer_Multiplex:
+                key = selectors.SelectorKey(srv.sock, 6, selectors.EVENT_READ, srv)
+                srv.selector = _ProbeSelector([], [(key, selectors.EVENT_READ)])
+            try:
+                srv.loop(cond)
+            finally:
+                _retire(srv)
+            if calls_made[0] < 2:
+                raise e             # the loop ended (a `break`): for the model that is the same as the exception leaving it
+        thr_loop = contained(lambda e: loop_with(svr_threads.SocketServer_Threadpool, e))
+        mux_loop = contained(lambda e: loop_with(svr_multiplex.SocketServer_Multiplex, e))
 
-    def unguarded(mod, label, fn):
-        out = []
+        # with COMMTIMEOUT configured: the timeout is on the socket when the handshake starts reading - refused and served
+        class FullPool:
+            def process(self, job):
+                raise svr_threads.NoFreeWorkersError("probe: full")
 
-        def visit(node, safe):
-            if isinstance(node, ast.Try):
-                covers = any(set(names_of(mod, h.type)) & COVER for h in node.handlers)
-                for st in node.body:
-                    visit(st, safe or covers)
-                for part in [h.body for h in node.handlers] + [node.orelse, node.finalbody]:
-                    for st in part:
-                        visit(st, safe)
-                return
-            if isinstance(node, ast.With):
-                sup = False
-                for item in node.items:
-                    c = item.context_expr
-                    if isinstance(c, ast.Call) and getattr(c.func, "attr", "") == "suppress":
-                        sup = sup or any(set(names_of(mod, a)) & COVER for a in c.args)
-                for st in node.body:
-                    visit(st, safe or sup)
-                return
-            if isinstance(node, ast.Call) and isinstance(node.func, ast.Attribute) and node.func.attr in RISKY and not safe:
-                out.append("%s:%s" % (label, node.func.attr))
-            for ch in ast.iter_child_nodes(node):
-                visit(ch, safe)
-        for t in ast.walk(fn):
-            if isinstance(t, ast.Try):
-                for part in [h.body for h in t.handlers] + [t.finalbody]:
-                    for st in part:
-                        visit(st, False)
-        return sorted(set(out))
+        class InlinePool:
+            def process(self, job):
+                job()
+        log = []
+        srv = acceptor(_ProbeListener(log), FullPool())
+        srv.events([srv.sock])
+        _retire(srv)
+        deny_timeouts = [x[1] for x in log if isinstance(x, tuple) and x[0] == "handshake"]
+        log = []
+        srv = acceptor(_ProbeListener(log), InlinePool())
+        srv.events([srv.sock])
+        _retire(srv)
+        serve_timeouts = [x[1] for x in log if isinstance(x, tuple) and x[0] == "handshake"]
+        thr_timeout = deny_timeouts == [1.5] and serve_timeouts == [1.5]
 
-    unguarded_calls = []
-    SETUP = {"__init__", "init", "__del__", "__repr__", "close", "shutdown", "wakeup", "combine_loop", "sockets", "selector", "process"}
-    for mod, tree, cname in ((svr_threads, tt, "ClientConnectionJob"), (svr_threads, tt, "Worker"),
-                             (svr_threads, tt, "SocketServer_Threadpool"), (svr_multiplex, mt, "SocketServer_Multiplex")):
-        for fname, fn in sorted(methods_of(tree, cname).items()):          # incl. helper methods the serving code is split into
-            if fname not in SETUP:
-                unguarded_calls += unguarded(mod, "%s.%s" % (cname, fname), fn)
+        # ---- multiplex server ------------------------------------------------------------------------------------------
+        retired = []
 
-    # -- with COMMTIMEOUT configured the accepted socket gets its timeout before anything reads from it: in the accept loop,
-    #    ahead of the job's creation (so the deny path, which runs in the accept loop, reads with the timeout too)
-    def lineno_of(fn, pred):
-        ls = [n.lineno for n in ast.walk(fn) if pred(n)]
-        return min(ls) if ls else None
+        def mux(daemon, log):
+            srv = object.__new__(svr_multiplex.SocketServer_Multiplex)
+            srv.daemon = daemon
+            srv.sock = _ProbeListener(log)
+            srv.shutting_down = False
+            srv.selector = _ProbeSelector(log)
+            return srv
 
-    def guarded_settimeout(fn):
-        for n in ast.walk(fn):
-            if isinstance(n, ast.If) and "COMMTIMEOUT" in ast.unparse(n.test) and calls(ast.Module(n.body, []), "settimeout"):
-                return n.lineno
-        return None
-    st_line = guarded_settimeout(ev)
-    job_line = lineno_of(ev, lambda n: isinstance(n, ast.Call) and getattr(n.func, "id", "") == "ClientConnectionJob")
-    thr_timeout_first = st_line is not None and job_line is not None and st_line < job_line
-    st_line = guarded_settimeout(hcm)
-    hs_line = lineno_of(hcm, lambda n: isinstance(n, ast.Call) and getattr(n.func, "attr", "") == "_handshake")
-    mux_timeout_first = st_line is not None and hs_line is not None and st_line < hs_line
+        def mux_request(e):
+            log = []
+            srv = mux(_ProbeDaemon(log, True, e), log)
+            retired.append(srv)
+            if srv.handleRequest(socketutil.SocketConnection(_ProbeSock(log))) is not False:
+                raise ValueError("SocketServer_Multiplex.handleRequest: a failed request does not report the connection inactive")
+        mux_req = contained(mux_request)
 
-    # -- the daemon: _handshake sends outside its try; (checked so that `gone` means what the model says)
-    stree = ast.parse(open(server.__file__).read())
-    hs = find(stree, "Daemon", "_handshake")
-    t = try_around(hs, "recv_stub")
-    if t is None or any(calls(st, "send") for st in t.body) or not any(calls(st, "send") for st in hs.body if st is not t):
-        raise ValueError("Daemon._handshake: the reply is no longer sent after (outside) the try block")
+        def mux_shake_probe(e):
+            log = []
+            srv = mux(_ProbeDaemon(log, e), log)
+            retired.append(srv)
+            if srv._handleConnection(srv.sock):
+                raise ValueError("SocketServer_Multiplex._handleConnection: a failed handshake yields a connection")
+        mux_shake = contained(mux_shake_probe)
+        log = []
+        srv = mux(_ProbeDaemon(log, True, rep("connClosed")), log)
+        retired.append(srv)
+        srv.events([socketutil.SocketConnection(_ProbeSock(log))])
+        inactive = [x for x in log[log.index("handleRequest") + 1:] if x in ("_clientDisconnect", "unregister", "close")]
+        inactive = [x for i, x in enumerate(inactive) if x not in inactive[:i]]
+        log = []
+        srv = mux(_ProbeDaemon(log, False), log)
+        retired.append(srv)
+        srv._handleConnection(srv.sock)
+        mux_timeout = [x[1] for x in log if isinstance(x, tuple) and x[0] == "handshake"] == [1.5]
+        for x in retired:
+            _retire(x)
+    finally:
+        config.COMMTIMEOUT, config.POLLTIMEOUT = saved
 
-    # -- recv_stub refuses an invalid prefix after its first six bytes: first recv of a constant <= 6, validate, then the rest
-    from Pyro5 import protocol
-    ptree = ast.parse(open(protocol.__file__).read())
-    rs = [n for n in ptree.body if isinstance(n, ast.FunctionDef) and n.name == "recv_stub"][0]
-    order = []
-    for n in sorted((n for n in ast.walk(rs) if isinstance(n, ast.Call) and isinstance(n.func, ast.Attribute)
-                     and n.func.attr in ("recv", "validate")), key=lambda n: (n.lineno, n.col_offset)):
-        if n.func.attr == "recv":
-            a = n.args[0] if n.args else None
-            order.append("recv:%s" % (a.value if isinstance(a, ast.Constant) else "expr"))
-        else:
-            order.append("validate")
-    prefix_first = len(order) >= 3 and order[0].startswith("recv:") and order[0][5:].isdigit() and int(order[0][5:]) <= 6 \
-        and order[1] == "validate" and order[2].startswith("recv:")
-    # -- the fallback for an exception that cannot be serialised catches every Exception
-    sx = find(stree, "Daemon", "_serializeException")
-    t = try_around(sx, "dumps")
-    def handler_classes(mod, h):
-        if h.type is None:
-            return [BaseException]
-        elts = h.type.elts if isinstance(h.type, ast.Tuple) else [h.type]
-        return [eval(compile(ast.Expression(e), "<except>", "eval"), vars(mod)) for e in elts]
-    fallback_all = t is not None and any(c in (Exception, BaseException) for h in t.handlers for c in handler_classes(server, h))
+    # ---- recv_stub refuses an invalid prefix of six bytes without asking the connection for more --------------------------
+    class WouldWait(Exception):
+        pass
 
-    reps = [("connClosed", errors.ConnectionClosedError), ("pyroTimeout", errors.TimeoutError), ("protocol", errors.ProtocolError),
-            ("serialize", errors.SerializeError), ("security", errors.SecurityError), ("osError", OSError),
-            ("sockTimeout", socket.timeout), ("other", KeyError), ("keyboardInterrupt", KeyboardInterrupt), ("baseOther", SystemExit)]
-    name_cls = {v: k for k, v in cls_name.items()}
-    table = []
-    for cname, cls in reps:
-        hs_ = [h for h in HANDLERS if issubclass(cls, name_cls[h])]
-        table.append("(.%s, [%s])" % (cname, ", ".join("." + h for h in hs_)))
+    class Conn:
+        def __init__(self, data):
+            self.data, self.pos = data, 0
+
+        def recv(self, n):
+            if len(self.data) - self.pos < n:
+                raise WouldWait()
+            self.pos += n
+            return self.data[self.pos - n:self.pos]
+    prefix_first = True
+    for data in (b"XXXXXX", b"PYRO\x00\x2f", b"PYRO\xff\xff" + b"z" * 33, b"GET / HTTP/1.1\r\n"):
+        try:
+            protocol.recv_stub(Conn(data), None)
+            prefix_first = False
+        except errors.ProtocolError:
+            pass
+        except Exception:
+            prefix_first = False
+
+    # ---- an exception that cannot be serialised, whatever goes wrong: the caller still gets an error reply -------------------
+    class Sink:
+        def __init__(self):
+            self.sent = []
+
+        def send(self, data):
+            self.sent.append(bytes(data))
+    dm = object.__new__(server.Daemon)
+    fallback_all = True
+    for ser_id in sorted(serializers.serializers_by_id):
+        for kind in ("slots", "getstate", "deep", "lock"):
+            e = ValueError("probe")
+            e.extra = threading.Lock() if kind == "lock" else c05_rig.poison_value(kind)
+            sink = Sink()
+            try:
+                dm._sendExceptionResponse(sink, 1, ser_id, e, ["tb"])
+                ok = len(sink.sent) == 1 and bool(sink.sent[0][9] & protocol.FLAGS_EXCEPTION)
+            except Exception:
+                ok = False
+            fallback_all = fallback_all and ok
+
     L = lambda xs: "[" + ", ".join("." + x for x in xs) + "]"
     b = lambda x: "true" if x else "false"
-    return f"""-- GENERATED by harness/props/c05.py from Pyro5/svr_threads.py, svr_multiplex.py, server.py, errors.py — do not edit
+    return f"""-- GENERATED by harness/props/c05.py by running the real layers of Pyro5/svr_threads.py, svr_multiplex.py, server.py,
+-- protocol.py with stand-ins (see extract()) — do not edit
 import PyroModel.ServerLoop
 namespace Pyro.Gen.C05
 open Pyro.ServerLoop
-/-- the except-ladders of the transports, in clause order -/
+/-- per containment layer: the classes whose representative, raised inside it, does not leave it -/
 def cfg : Cfg :=
   {{ thrJob := {L(thr_job)},
     thrShake := {L(thr_shake)},
@@ -329,29 +410,24 @@ def cfg : Cfg :=
     muxReq := {L(mux_req)},
     muxShake := {L(mux_shake)},
     muxLoop := {L(mux_loop)} }}
-/-- issubclass(representative of the class, class named by the handler), from the real classes -/
-def subclassTable : List (Cls × List Handler) :=
-  [{(chr(10) + "   ").join(x + "," for x in table)[:-1]}]
-/-- calls in the `finally:` of ClientConnectionJob.__call__, in order -/
+/-- the representatives that are instances of Exception -/
+def exceptionClasses : List Cls := {L(exception_classes)}
+/-- what runs after the request loop of a connection job is left (observed; on every exit, also an uncontained one) -/
 def threadFinally : List String := {json.dumps(thread_finally)}
-/-- Worker.run calls pool.notify_done after (outside) the try around the job -/
-def workerNotifiesAfterTry : Bool := {b(notifies_after)}
-/-- calls in the `if not active:` branch of SocketServer_Multiplex.events, in order -/
+/-- Worker.run tells the pool (once) after a job that raised something it contains -/
+def workerNotifiesAfterTry : Bool := {b(notifies)}
+/-- what SocketServer_Multiplex.events does with a connection whose request reported it inactive (observed, in order) -/
 def multiplexInactive : List String := {json.dumps(inactive)}
-/-- denyConnection closes the socket on every path (close in a `finally`, or after a try whose handlers do not raise) -/
+/-- denyConnection leaves the refused socket closed, whatever _handshake does -/
 def denyAlwaysCloses : Bool := {b(deny_closes)}
-/-- socket calls (getpeername, shutdown, send, ...) inside except / finally bodies of the transports that are not themselves
-    inside a try / suppress covering OSError: after a reset they raise, and nothing around a handler catches that -/
-def unguardedSocketCalls : List String := {json.dumps(unguarded_calls)}
-/-- `if config.COMMTIMEOUT: csock.settimeout(..)` stands in the accept loop before the connection job is created
-    (thread; so the refusal path reads with the timeout too) / before `_handshake` (multiplex) -/
-def threadTimeoutBeforeJob : Bool := {b(thr_timeout_first)}
-def multiplexTimeoutBeforeHandshake : Bool := {b(mux_timeout_first)}
-/-- recv_stub reads at most 6 bytes, validates them, and only then reads the rest of the header: an invalid prefix is
-    refused without waiting for more bytes from the peer -/
+/-- with COMMTIMEOUT configured the socket carries the timeout when _handshake starts reading: for a refused connection
+    (acceptor thread) and for a served one (thread server) / for a new connection (multiplex) -/
+def threadTimeoutBeforeJob : Bool := {b(thr_timeout)}
+def multiplexTimeoutBeforeHandshake : Bool := {b(mux_timeout)}
+/-- recv_stub refuses 6..39 bytes with an invalid prefix without asking the connection for more bytes -/
 def headerPrefixValidatedFirst : Bool := {b(prefix_first)}
-/-- Daemon._serializeException: the fallback around serializer.dumps(exc_value) is `except Exception` (whatever goes wrong
-    while serialising a raised exception, the caller still gets an error reply and keeps its connection) -/
+/-- Daemon._sendExceptionResponse sends an error reply for exceptions whose serialisation fails with TypeError,
+    AttributeError, RuntimeError, RecursionError ..., under every serializer -/
 def exceptionFallbackCatchesAll : Bool := {b(fallback_all)}
 end Pyro.Gen.C05
 """
